@@ -602,6 +602,16 @@ def load(I, arr, idx, node, env):
     pts = arr.meta.get("points")
     if pts and arr.ndim == 1 and len(items) == 1 and isinstance(items[0], Expr) and const_int(items[0]) in pts:
         return pts[const_int(items[0])]
+    # a fixed index beyond a fixed extent is an IndexError for every input
+    ax = 0
+    for it in items:
+        if it is None:
+            continue
+        if isinstance(it, Expr) and ax < len(arr.shape):
+            c, d = const_int(it), const_int(arr.shape[ax])
+            if c is not None and d is not None and (c >= d or c < -d):
+                raise I_.raise_exc("IndexError", node, "index %d is out of bounds for axis %d with size %d" % (c, ax, d))
+        ax += it.ndim if isinstance(it, Arr) and it.dtype == "bool" else 1
     g = _index_gather(I, arr, items, node)
     if g is not None:
         return g
